@@ -7,13 +7,41 @@ import random
 
 
 class Tape:
+    """A tape may have named sub-tapes (fork): independent segments of a run (one delivery, one
+    event, one schedule).  In replay a sub-tape that is absent from the file means "skip that
+    segment", which is what lets the minimiser drop whole segments."""
+
     def __init__(self, seed=None, replay=None):
         self.values = []          # ints actually used, in order
         self.bounds = []
+        self.children = {}        # name -> Tape (record: created on demand; replay: from the file)
+        self.absent = False
+        self._replay_children = None
+        if isinstance(replay, dict):
+            self._replay_children = dict(replay.get('c') or {})
+            replay = replay.get('v') or []
         self._replay = None if replay is None else list(replay)
         self._pos = 0
         self._rng = random.Random(str(seed)) if replay is None else None
         self.seed = seed
+
+    def fork(self, name):
+        if self._replay is None:
+            child = Tape(seed='%s/%s' % (self.seed, name))
+        elif self._replay_children is not None and name in self._replay_children:
+            child = Tape(replay=self._replay_children[name])
+        else:
+            child = Tape(replay=[])
+            # an old-style flat replay has no segment information: nothing is skipped then
+            child.absent = self._replay_children is not None
+        self.children[name] = child
+        return child
+
+    def dump(self):
+        """What was used: {'v': [...], 'c': {name: dump}} (children that drew nothing are kept too)."""
+        if not self.children:
+            return {'v': list(self.values), 'c': {}}
+        return {'v': list(self.values), 'c': {k: c.dump() for k, c in self.children.items() if not c.absent}}
 
     # -- primitive -----------------------------------------------------
     def draw(self, n, label=None):
@@ -155,4 +183,74 @@ def shrink(values, still_fails, budget=200, deadline=None):
                     break
         while cur and cur[-1] == 0 and ok(cur[:-1]):
             cur = cur[:-1]
+    return cur, calls[0]
+
+
+def tape_size(d):
+    if isinstance(d, list):
+        return len(d)
+    return len(d.get('v') or []) + sum(tape_size(c) for c in (d.get('c') or {}).values())
+
+
+def shrink_tree(dump, still_fails, budget=200, deadline=None):
+    """Minimise a structured tape: drop sub-tapes first (halves, then single ones), then shrink the
+    value lists of what is left.  -> (dump, calls)"""
+    import time
+    import copy
+    calls = [0]
+
+    def ok(cand):
+        if calls[0] >= budget or (deadline is not None and time.monotonic() > deadline):
+            return False
+        calls[0] += 1
+        return still_fails(cand)
+
+    cur = copy.deepcopy(dump) if isinstance(dump, dict) else {'v': list(dump), 'c': {}}
+    names = list(cur['c'])
+    # drop trailing segments by binary search on the prefix length
+    lo, hi = 0, len(names)
+    while lo < hi:
+        mid = (lo + hi) // 2
+        cand = {'v': cur['v'], 'c': {k: cur['c'][k] for k in names[:mid]}}
+        if ok(cand):
+            hi = mid
+        else:
+            lo = mid + 1
+    if hi < len(names):
+        cand = {'v': cur['v'], 'c': {k: cur['c'][k] for k in names[:hi]}}
+        if ok(cand):
+            cur = cand
+    # drop blocks of the remaining segments
+    names = list(cur['c'])
+    size = max(1, len(names) // 2)
+    while size >= 1 and names:
+        i = 0
+        while i < len(names):
+            keep = names[:i] + names[i + size:]
+            cand = {'v': cur['v'], 'c': {k: cur['c'][k] for k in keep}}
+            if len(keep) < len(names) and ok(cand):
+                names = keep
+                cur = cand
+            else:
+                i += size
+        size //= 2
+    # shrink the value lists
+    rest = max(10, budget - calls[0])
+
+    def shrink_list(get, put):
+        vals = get()
+        if not vals:
+            return
+
+        def f(v):
+            cand = copy.deepcopy(cur)
+            put(cand, v)
+            return ok(cand)
+        new, _ = shrink(vals, f, budget=max(5, rest // (1 + len(cur['c']))), deadline=deadline)
+        put(cur, new)
+    for k in list(cur['c']):
+        shrink_list(lambda k=k: cur['c'][k]['v'] if isinstance(cur['c'][k], dict) else cur['c'][k],
+                    lambda d, v, k=k: d['c'][k].__setitem__('v', v) if isinstance(d['c'][k], dict)
+                    else d['c'].__setitem__(k, v))
+    shrink_list(lambda: cur['v'], lambda d, v: d.__setitem__('v', v))
     return cur, calls[0]
